@@ -268,9 +268,16 @@ c = contract("server.AppNamespace._add_mailbox", cls="AppNamespace",
              modifies=[MB, "in_tx.ch"], tags=["C03", "C05", "C06", "C17"])
 
 
-@c.requires
+def foreign_id(S, a, mid):
+    """F2: the id is taken by a mailbox row of another app (mailboxes.id is a global primary key)"""
+    t = S.t(MB)
+    return And(t.none(lambda r: And(r.app_id == a, r.id == mid)), t.exists(lambda r: r.id == mid))
+
+
+@c.raises("IntegrityError", "foreign_id", tags=["C06", "C17"])
 def _(c):
-    yield "id_not_foreign", id_not_foreign(c.pre, c.sf("_app_id"), c.a.t("mailbox_id"))
+    yield "when", foreign_id(c.pre, c.sf("_app_id"), c.a.t("mailbox_id"))
+    yield "nothing_stored", And(tbl_eq(c.pre.t(MB), c.post.t(MB)), c.post.in_tx["ch"])
 
 
 def add_mailbox_post(S0, S1, a, mid, for_np, when):
@@ -307,7 +314,6 @@ c = contract("server.AppNamespace.open_mailbox", cls="AppNamespace",
 
 @c.requires
 def _(c):
-    yield "id_not_foreign", id_not_foreign(c.pre, c.sf("_app_id"), c.a.t("mailbox_id"))
     yield "registry_wf", registry_wf(c.pre, c.self_ref)
     yield "not_from_future", I.not_from_future(c.pre, c.a.t("when"))
 
@@ -376,6 +382,14 @@ def open_mailbox_post(c, res):
 @c.ensures
 def _(c):
     yield from open_mailbox_post(c, c.result.t)
+
+
+@c.raises("IntegrityError", "foreign_id", tags=["C06", "C17"])
+def _(c):
+    # F2: the id belongs to another app's mailbox: the INSERT violates the primary key; nothing is stored,
+    # but the implicit transaction of the failed INSERT stays open
+    yield "when", foreign_id(c.pre, c.sf("_app_id"), c.a.t("mailbox_id"))
+    yield "nothing_stored", And(unchanged(c, [k for k in [MB, MS] + REGISTRY_COMPS]), c.post.in_tx["ch"])
 
 
 @c.raises("CrowdedError", "third_side", tags=["C05"])
